@@ -188,3 +188,49 @@ package literals
 //@     invariant @untouched-suffix: forall j int :: _i <= j && j < len(data) ==> data[j] == old(data[j])
 //@     invariant @key-is-not-modified: forall j int :: 0 <= j && j < len(key) ==> key[j] == entry(key[j])
 //@ end
+
+// ---- C05: a single byte hidden behind an external key evaluates to that byte ----
+// den[e] is the byte an emitted expression evaluates to; it is attached where the expression is
+// built: a literal denotes its value, byte(x) denotes x, key.ToExpr(b) denotes byte(key.value >> 8b),
+// and x <op> y denotes the operator applied to the two denotations (Go's semantics of these four
+// shapes, stated once here). byteLitWithExtKey is then proved to return an expression denoting val
+// on both of its paths, for every operator, key and shift.
+
+//@ ghost den map[ref]byte
+
+//@ hookset denote
+//@ hook after mvdan.cc/garble/internal/asthelper.IntLit(v) (r)
+//@   den[r] = byte(v)
+//@ hook after mvdan.cc/garble/internal/asthelper.CallExprByName(fun, a0) (r)
+//@   if fun == "byte" { den[r] = den[a0] }
+//@ hook after (*mvdan.cc/garble/internal/literals.externalKey).ToExpr(k, b) (r)
+//@   den[r] = byte(k.value >> (uint(b) * 8))
+//@ hook after mvdan.cc/garble/internal/literals.operatorToReversedBinaryExpr(t, x, y) (r)
+//@   den[r] = spec.Eval(spec.Rev(t), den[x], den[y])
+//@ end
+
+//@ func (*externalKey).ToExpr
+//@   property C05
+//@   trusted builds byte(<key name> >> 8b); its denotation is attached by the hook above
+//@   assigns nothing
+//@   ensures r0 != nil && fresh(r0)
+//@ end
+
+//@ func (*externalKey).AddRef
+//@   inline
+
+//@ func (externalKeyProbability).Try
+//@   property C05
+//@   trusted draws one float from the seeded generator and compares it with the probability
+//@   assigns nothing
+//@ end
+
+//@ func byteLitWithExtKey
+//@   property C05
+//@   intmode bv
+//@   spec ops.smt2
+//@   hooks denote
+//@   requires len(extKeys) > 0 && forall k int :: 0 <= k && k < len(extKeys) ==> extKeys[k] != nil && (extKeys[k].bits == 8 || extKeys[k].bits == 16 || extKeys[k].bits == 32 || extKeys[k].bits == 64)
+//@   skip safety
+//@   ensures @emitted-expression-evaluates-to-the-byte: r0 != nil && den[r0] == val
+//@ end
